@@ -208,6 +208,13 @@ func (c *Ctx) c04Allocations(rule string, fns []*ssa.Function, floor int) {
 					ok = true
 				}
 			}
+			if !ok {
+				if g, h := c.resultGuarantee(rule, site, arg); h != nil && g.leMax {
+					n++
+					R.OK(rule, fkey(caller)+":precondition:"+fkey(lf.fn)+"("+lf.fn.Params[lf.idx].Name()+"<=limit)", c.at(site), "call site bounds the size it hands to "+fkey(lf.fn)+" by the message limit", "the argument is the result of "+fkey(h)+" (same receiver) on its err == nil edge; every return of "+fkey(h)+" that may carry a nil error proves result <= MaxMessageSize")
+					continue
+				}
+			}
 			n++
 			R.Check(ok, rule, fkey(caller)+":precondition:"+fkey(lf.fn)+"("+lf.fn.Params[lf.idx].Name()+"<=limit)", c.at(site), "call site bounds the size it hands to "+fkey(lf.fn)+" by the message limit", "E-LIN: "+l.Last, "cannot prove "+describe(arg)+" <= MaxMessageSize at this call of "+fname(lf.fn)+": more than the limit can be allocated / buffered for one message")
 		}
@@ -530,15 +537,7 @@ func (c *Ctx) c04Termination(rule string) {
 			if !ok {
 				continue
 			}
-			stops := false
-			for _, e := range nilEdges(call, false) {
-				blk := e.to()
-				if r, ok := blk.Instrs[len(blk.Instrs)-1].(*ssa.Return); ok {
-					if roots := core.ErrRoots(errOperand(r)); len(roots) == 1 && roots[0] == ssa.Value(call) {
-						stops = true
-					}
-				}
-			}
+			stops := c.stopsOnError(call)
 			R.Check(stops, rule, "consumeCommands:stops-on-error", c.at(call), "the command loop ends as soon as a command returns a non-nil error", "the non-nil edge returns that error", "the loop does not return on a non-nil command result")
 		}
 	}
